@@ -363,6 +363,12 @@ WiringPortRef wire_node(Scope &sc, const JV &st, std::vector<WiringPortRef> ins)
         e += "]";
         if (g_ctx) g_ctx->add(std::move(e));
         if (cfg->thr.is_obj() && cfg->thr.bool_or("start", false)) throw std::runtime_error("boom:" + cfg->label + ":start");
+        // a start fault of ONE instance among several of the same definition: only where the first input already holds a negative value
+        if (cfg->thr.is_obj() && cfg->thr.bool_or("start_neg", false) && cfg->n_in > 0) {
+            bool neg = false;
+            try { auto in = v.input(t); auto b = in.as_bundle(); auto c = b[0]; neg = c.valid() && contribution(c) < 0; } catch (...) {}
+            if (neg) throw std::runtime_error("boom:" + cfg->label + ":start");
+        }
     };
     cb.stop = [cfg](const NodeView &v, DateTime t) {
         if (g_ctx) g_ctx->add("[\"up\"," + ident(v) + "," + jtime(t) + "]");
